@@ -76,6 +76,19 @@ class _NoVal:
 _NOVAL = _NoVal()
 
 
+class _Ast:
+    """an expression kept as syntax (a function, a lambda, ...) inside an otherwise literal table"""
+
+    def __init__(self, node):
+        self.node = node
+
+    def __eq__(self, other):
+        return isinstance(other, _Ast) and ast.dump(other.node) == ast.dump(self.node)
+
+    def __hash__(self):
+        return hash(ast.dump(self.node))
+
+
 def value_of(e, env):
     if isinstance(e, ast.Constant):
         return e.value
@@ -85,9 +98,19 @@ def value_of(e, env):
         return env.get(e.id, _NOVAL)
     if isinstance(e, (ast.List, ast.Tuple, ast.Set)):
         vals = [value_of(x, env) for x in e.elts]
+        # a table row may carry functions next to its literal columns: kept as syntax
+        vals = [(_Ast(x) if (v is _NOVAL and isinstance(x, (ast.Name, ast.Lambda, ast.Call, ast.Attribute)) and not isinstance(getattr(x, "ctx", None), ast.Store) and not (isinstance(x, ast.Name) and x.id in env)) else v) for v, x in zip(vals, e.elts)]
         if any(v is _NOVAL for v in vals):
             return _NOVAL
         return vals
+    if isinstance(e, ast.Call) and isinstance(e.func, ast.Attribute) and e.func.attr == "get" and (isinstance(e.func.value, ast.Dict) or (isinstance(e.func.value, ast.Name) and isinstance(env.get(e.func.value.id), dict))) and e.args and not e.keywords:
+        k = value_of(e.args[0], env)
+        tbl = value_of(e.func.value, env)
+        if k is _NOVAL or isinstance(k, list) or not isinstance(tbl, dict):
+            return _NOVAL
+        if k in tbl:
+            return value_of(tbl[k], env)
+        return value_of(e.args[1], env) if len(e.args) > 1 else None
     if isinstance(e, ast.Dict) and all(k is not None for k in e.keys):
         # a table display: only its keys matter for membership tests
         ks = [value_of(k, env) for k in e.keys]
@@ -136,6 +159,29 @@ def _cmp(a, op, b):
     return UNKNOWN
 
 
+def _apply_kept(expr, env):
+    """`f(x)` where f is bound to a function kept as syntax: float -> float(x); methodcaller('m') -> x.m();
+    lambda p: body -> body[p := x]"""
+    import copy
+
+    if isinstance(expr, ast.Call) and isinstance(expr.func, ast.Name) and isinstance(env.get(expr.func.id), _Ast) and len(expr.args) == 1 and not expr.keywords:
+        fn = env[expr.func.id].node
+        arg = expr.args[0]
+        if isinstance(fn, ast.Name):
+            return ast.copy_location(ast.Call(func=fn, args=[arg], keywords=[]), expr)
+        if isinstance(fn, ast.Call) and ast.unparse(fn.func) in ("methodcaller", "operator.methodcaller") and fn.args and isinstance(fn.args[0], ast.Constant) and isinstance(fn.args[0].value, str):
+            return ast.copy_location(ast.Call(func=ast.Attribute(value=arg, attr=fn.args[0].value, ctx=ast.Load()), args=list(fn.args[1:]), keywords=list(fn.keywords)), expr)
+        if isinstance(fn, ast.Lambda) and len(fn.args.args) == 1 and not fn.args.defaults:
+            pname = fn.args.args[0].arg
+
+            class S(ast.NodeTransformer):
+                def visit_Name(self, n):
+                    return copy.deepcopy(arg) if n.id == pname else n
+
+            return S().visit(copy.deepcopy(fn.body))
+    return expr
+
+
 def run_chain(stmts, env, atoms=None, depth=0):
     """Interpret the control skeleton: returns ('return', expr) | ('raise', node) | ('fall', None) | ('unknown', node)"""
     env = dict(env)
@@ -151,7 +197,34 @@ def run_chain(stmts, env, atoms=None, depth=0):
                 return r
             continue
         if isinstance(s, ast.Return):
-            return ("return", s.value)
+            return ("return", _apply_kept(s.value, env))
+        if isinstance(s, ast.Assign) and len(s.targets) == 1 and isinstance(s.targets[0], ast.Tuple) and all(isinstance(t, ast.Name) for t in s.targets[0].elts):
+            v = value_of(s.value, env)
+            if isinstance(v, list) and len(v) == len(s.targets[0].elts):
+                for t, x in zip(s.targets[0].elts, v):
+                    env[t.id] = x
+                continue
+            return ("unknown", s)
+        if isinstance(s, ast.For) and not s.orelse:
+            rows = value_of(s.iter, env)
+            if isinstance(rows, list):
+                done = None
+                for row in rows:
+                    if isinstance(s.target, ast.Name):
+                        env[s.target.id] = row
+                    elif isinstance(s.target, ast.Tuple) and isinstance(row, list) and len(row) == len(s.target.elts) and all(isinstance(t, ast.Name) for t in s.target.elts):
+                        for t, x in zip(s.target.elts, row):
+                            env[t.id] = x
+                    else:
+                        return ("unknown", s)
+                    r = run_chain(s.body, env, atoms, depth + 1)
+                    if r[0] != "fall":
+                        done = r
+                        break
+                if done is not None:
+                    return done
+                continue
+            return ("unknown", s)
         if isinstance(s, ast.Raise):
             return ("raise", s)
         if isinstance(s, ast.Assign) and len(s.targets) == 1 and isinstance(s.targets[0], ast.Name):
